@@ -194,11 +194,13 @@ class Sim:
             self.population(k, *e[1:])
 
     def pending(self):
-        mine = lambda evs: {e.data["seq"] for e in evs if e.data.get("sim") == self.uid}
-        s = mine(self.m.events)
-        for a in self.m.agents:
-            s |= mine(a.events)
-        s |= mine(self.m.scheduler.delayed_events)
+        # the queue, the inboxes and the scheduler's hold list are read by attribute name: a renamed one is skipped
+        # (this set only words the message "still queued" / "never handled")
+        mine = lambda evs: {e.data["seq"] for e in (evs or ()) if isinstance(getattr(e, "data", None), dict) and e.data.get("sim") == self.uid}
+        s = mine(getattr(self.m, "events", None))
+        for a in getattr(self.m, "agents", None) or ():
+            s |= mine(getattr(a, "events", None))
+        s |= mine(getattr(self.m.scheduler, "delayed_events", None))
         return s
 
     def apply(self, op):
@@ -242,7 +244,7 @@ class Sim:
             return self.handled[n0:], list(self.run_marks)
         elif k == "step":
             self.script = op[1]
-            before = {e.data["seq"] for e in m.events if e.data.get("sim") == self.uid}
+            before = {e.data["seq"] for e in (getattr(m, "events", None) or ()) if e.data.get("sim") == self.uid}
             n0 = len(self.handled)
             self.step_no += 1
             try:
@@ -612,15 +614,19 @@ def probe():
 def countdown_steps(delay, dt, cap=100000):
     """How many times the real `Scheduler.handle_delayed_event` keeps a DelayedEvent(delay) back."""
     from BPTK_Py import DelayedEvent, Scheduler
-    s = Scheduler()
-    e = DelayedEvent("ev", 0, 0, num(delay), None)
-    n = 0
-    while s.handle_delayed_event(e, dt=float(dt)) is None:
-        n += 1
-        s.delayed_events = []
-        if n > cap:
-            break
-    return n
+    try:
+        s = Scheduler()
+        e = DelayedEvent("ev", 0, 0, num(delay), None)
+        n = 0
+        while s.handle_delayed_event(e, float(dt)) is None:
+            n += 1
+            if n % 4096 == 0 and isinstance(getattr(s, "delayed_events", None), list):
+                s.delayed_events = []              # only keeps the helper's hold list short
+            if n > cap:
+                break
+        return n
+    except Exception:
+        return None                                # the helper's signature / internals changed: measure through run_step
 
 
 def steps_via_scheduler(delay, dt, cap):
@@ -1237,17 +1243,25 @@ def run(chk):
         dn = rng.below(min(10 ** 6 * tn, 10 ** 12) + 1) if rng.chance(1, 3) else rng.below(50 * tn + 1)
         lat.append((dec_str(dn, p), dec_str(tn, p)))
     lat_req = [f"steps {frac_str(a)} {frac_str(b)}" for a, b in lat]
-    lat_real, lat_bad = [], None
+    lat_real, lat_bad, lat_skipped = [], None, 0
     for a, b in lat:
         e = exact_steps(a, b)
         lat_real.append(str(e))
         c = first_eval(a, b) if e > 2000 else countdown_steps(a, b)
+        if e > 2000 and c is not None and c != e and lat_bad is None:    # the shortcut reads event.delay back: confirm with the full countdown
+            c = countdown_steps(a, b, cap=e + 2)
+        if c is None:                                # helper not callable as before: only the behavioural measurement
+            if e > 40:
+                lat_skipped += 1
+                continue
+            c = e
         if c == e and e <= 40:                       # wave 9: the same pair through the real scheduler's run_step
             c = steps_via_scheduler(a, b, e + 3)
             c = 10 ** 9 if c is None else c
         if c != e and lat_bad is None:
             lat_bad = (a, b, c, e)
     chk.cov["delay_lattice_pairs"] = len(lat)
+    chk.cov["delay_lattice_pairs_not_measurable"] = lat_skipped
     model = drive("C11", req + lat_req)
     model = [m.split(";steps=")[0] for m in model]
     # canonicalise the model's step lines the same way as the implementation's
@@ -1383,11 +1397,14 @@ def first_eval(delay, dt):
     """Number of steps the real handle_delayed_event announces at its first evaluation (large quotients: the countdown
     itself is checked on the smaller ones): stored delay afterwards = (k-1)*dt."""
     from BPTK_Py import DelayedEvent, Scheduler
-    s_ = Scheduler()
-    e = DelayedEvent("ev", 0, 0, num(delay), None)
-    if s_.handle_delayed_event(e, dt=float(dt)) is not None:
-        return 0
-    return int(round(e.delay / float(dt))) + 1
+    try:
+        s_ = Scheduler()
+        e = DelayedEvent("ev", 0, 0, num(delay), None)
+        if s_.handle_delayed_event(e, float(dt)) is not None:
+            return 0
+        return int(round(e.delay / float(dt))) + 1
+    except Exception:
+        return None
 
 
 def model_vs_impl(r):
